@@ -360,14 +360,29 @@ fn check_templates(l: &mut Laws<'_>, i: usize, j: usize, rng: &mut Rng, ts: &[li
     }
 }
 
-pub fn run(ctx: &mut Ctx) {
+pub fn run(ctx: &mut Ctx, args: &[String]) {
     ctx.start_watchdog(120);
-    let pool = pool();
-    let reps = ctx.scale(20usize, 200usize);
+    // `--miri-sample`: a reduced pool (every kind, inline and heap-allocated strings) and no
+    // template renders, small enough to be interpreted by Miri
+    let miri_sample = args.iter().any(|a| a == "--miri-sample");
+    let pool = if miri_sample {
+        let full = pool();
+        let mut p: Vec<RVal> = full.iter().step_by(5).cloned().collect();
+        p.push(s("a string long enough to live on the heap, not inline"));
+        p.push(s("fifteen bytes.."));
+        p
+    } else {
+        pool()
+    };
+    let reps = if args.iter().any(|a| a == "--miri-sample") { 2 } else { ctx.scale(20usize, 200usize) };
     // per-process stream: rebuild orders differ between workers on purpose
     let mut rng = ctx.rng("c11").fork(ctx.shard + 1);
-    let p = parser(Config::Stdlib);
-    let ts: Vec<liquid::Template> = TEMPLATES.iter().map(|(_, t)| p.parse(t).expect("c11 template")).collect();
+    let ts: Vec<liquid::Template> = if miri_sample {
+        Vec::new() // (building the stdlib parser alone costs minutes of interpretation)
+    } else {
+        let p = parser(Config::Stdlib);
+        TEMPLATES.iter().map(|(_, t)| p.parse(t).expect("c11 template")).collect()
+    };
     let mut matrix: Vec<String> = Vec::with_capacity(pool.len() * pool.len());
     let count_distinct = ctx.shard == 0;
     for i in 0..pool.len() {
@@ -377,7 +392,7 @@ pub fn run(ctx: &mut Ctx) {
             let mut l = Laws { ctx: &mut *ctx, pool: &pool };
             check_pair(&mut l, i, j, reps, &mut rng, &mut matrix);
             let cellv = matrix.last().cloned().unwrap_or_else(|| "0".repeat(7));
-            if cellv.len() == 7 {
+            if cellv.len() == 7 && !miri_sample {
                 check_templates(&mut l, i, j, &mut rng, &ts, &cellv);
             }
             ctx.record(h, nontrivial && count_distinct);
